@@ -45,7 +45,10 @@ CONSTANTS CfgNames,   \* configurations explored (subset of DOMAIN Configs)
           Mode,       \* "enum": every draw of every configuration; "proc": seeds from ProcSeeds
           ProcSeedKs, \* "proc" mode: abstract seeds (naturals)
           RNG,        \* "local" | "global"
-          AddrBytes   \* "fill"  | "minimal"
+          AddrBytes,  \* "fill"  | "minimal"
+          NetBase     \* "masked": a block's network is the configured address with its host bits cleared, however the CIDR was
+                      \*           written (10.0.0.5/29 is 10.0.0.0/29 - net.ParseCIDR);  "as-written": the configured address is
+                      \*           taken as the base as it stands (a broken instance: must violate Contained)
 
 VARIABLES inp,   \* [Procs -> input]    input = [c, lv, fam, gen, seed]
           pc,    \* [Procs -> {"start","seeded1","picked","seeded2","done"}]
@@ -62,10 +65,13 @@ None == [none |-> TRUE]
 Procs == 1..NSel
 
 \* ------------------------------------------------------------------ configurations
-N4(base, hb) == [fam |-> 4, hi |-> "", hz |-> 0, base |-> base, hb |-> hb]
+\* ho = host part of the address AS WRITTEN in the configuration (the CIDR text is base + ho / prefix length; ho = 0: canonical)
+N4h(base, hb, ho) == [fam |-> 4, hi |-> "", hz |-> 0, base |-> base, hb |-> hb, ho |-> ho]
+N4(base, hb) == N4h(base, hb, 0)
 \* IPv6 block: hi = upper part written as an address (low 32 bits zero), hz = number of leading
 \* zero bytes of hi (16 when hi = "::"), base = low part, hb = host bits
-N6(hi, hz, base, hb) == [fam |-> 6, hi |-> hi, hz |-> hz, base |-> base, hb |-> hb]
+N6h(hi, hz, base, hb, ho) == [fam |-> 6, hi |-> hi, hz |-> hz, base |-> base, hb |-> hb, ho |-> ho]
+N6(hi, hz, base, hb) == N6h(hi, hz, base, hb, 0)
 G(w, rp, nets) == [w |-> w, rp |-> rp, nets |-> nets]
 
 B10 == 167772160          \* 10.0.0.0
@@ -92,18 +98,22 @@ Configs ==
                  G(1, FALSE, << N4(256, 0), N6("::", 16, 65536, 0) >>) >>,
     fam   |-> << G(1, FALSE, << N4(B10, 1) >>), G(1, TRUE, << N6(P6, 0, 0, 1) >>) >>,
     allzero |-> << G(0, TRUE, << N4(B10, 1), N6(P6, 0, 0, 1) >>), G(0, FALSE, << N4(B10 + 8, 0) >>) >>,
+    hostbits |-> << G(1, TRUE,  << N4h(B10, 3, 5), N6h(P6, 0, 0, 2, 3) >>),
+                    G(2, FALSE, << N4h(B10 + 16, 2, 1), N4(B10 + 32, 1), N4h(B100, 0, 0), N6h(P6, 0, 16, 3, 7) >>) >>,
     mix3  |-> << G(1, FALSE, << N4(B10, 0), N4(B10 + 1, 0), N6(P6, 0, 0, 0) >>),
                  G(1, TRUE,  << N6(P6, 0, 16, 3), N4(B100, 3) >>),
                  G(2, FALSE, << N4(B10 + 8, 2), N4(B100 + 8, 1), N4(B10 + 12, 0), N6(P6, 0, 4, 2), N6(P6, 0, 64, 1) >>) >> ]
 
 Groups(c) == Configs[c]
 Size(n) == 2 ^ n.hb
+Base(n) == IF NetBase = "masked" THEN n.base ELSE n.base + n.ho    \* the address offsets are counted from
 FamW(f) == IF f = 4 THEN 4 ELSE 16
 
 ASSUME CfgNames \subseteq DOMAIN Configs
 ASSUME \A c \in DOMAIN Configs : \A g \in 1..Len(Groups(c)) :
           /\ Len(Groups(c)[g].nets) >= 1
-          /\ \A k \in 1..Len(Groups(c)[g].nets) : Groups(c)[g].nets[k].base % Size(Groups(c)[g].nets[k]) = 0
+          /\ \A k \in 1..Len(Groups(c)[g].nets) : /\ Groups(c)[g].nets[k].base % Size(Groups(c)[g].nets[k]) = 0
+                                                     /\ Groups(c)[g].nets[k].ho \in 0..(Size(Groups(c)[g].nets[k]) - 1)
 
 RECURSIVE SumTo(_, _)
 SumTo(f, k) == IF k = 0 THEN 0 ELSE f[k] + SumTo(f, k - 1)     \* f[1] + ... + f[k]
@@ -151,13 +161,13 @@ MinBytes(x) == IF x = 0 THEN 0 ELSE IF x < 256 THEN 1 ELSE IF x < 65536 THEN 2 E
 \* number of bytes of the address handed back to the caller
 ByteLen(net, off) ==
   IF AddrBytes = "fill" THEN FamW(net.fam)
-  ELSE IF net.fam = 4 THEN MinBytes(net.base + off)
-  ELSE IF net.hz = 16 THEN MinBytes(net.base + off)
+  ELSE IF net.fam = 4 THEN MinBytes(Base(net) + off)
+  ELSE IF net.hz = 16 THEN MinBytes(Base(net) + off)
   ELSE 16 - net.hz
 
 Ok(c, g, n, off) ==
   LET net == Nets(c, g)[n] IN
-  [ok |-> TRUE, g |-> g, n |-> n, off |-> off, fam |-> net.fam, hi |-> net.hi, low |-> net.base + off,
+  [ok |-> TRUE, g |-> g, n |-> n, off |-> off, fam |-> net.fam, hi |-> net.hi, low |-> Base(net) + off,
    rp |-> Groups(c)[g].rp, blen |-> ByteLen(net, off)]
 Err(kind) == [ok |-> FALSE, err |-> kind]
 
